@@ -612,7 +612,9 @@ def departure_doc(xml_text, budget=1, tag=''):
 
 IDENT_DOM = ['Item', 'type', 'Self', 'self', 'async', 'my-name', 'a.b', 'été', 'x*/ fn marker() {} /*', 'y /* z']
 LIT_DOM = ['plain', 'a"b', 'a\\b', 'a\\nb', 'a{b}', '"; fn marker() {} //', 'see "#anchor"', 'x"#.to_string(), "injected".to_string(), r#"y']
-URI_DOM = ['http://example.com/orders/v1', 'http://example.com/a"b', 'http://example.com/x{y}', 'http://example.com/a+b~c', 'urn:x:"q"']
+URI_DOM = ['http://example.com/orders/v1', 'http://example.com/a"b', 'http://example.com/x{y}', 'http://example.com/a+b~c', 'urn:x:"q"',
+           # alphanumeric for char::is_alphanumeric, but not a character of a Rust identifier
+           'http://example.com/x\u00b2y']
 URL_DOM = ['http://example.com/orders', 'http://example.com/a"b', 'http://example.com/a\\b', 'http://example.com/{x}',
            # a URL without authority keeps quotes, braces and backslashes verbatim when it is parsed and printed again
            'urn:hello:say"; pub fn marker() {} const _X: &str = "x\\y', 'urn:a{b}c']
